@@ -309,7 +309,7 @@ fn run_c04(args: &Args) -> Report {
 
 const INSERTABLE: &[&str] = &[
     "fn", "pub", "type", "const", "import", "use", "let", "case", "if", "as", "opaque", "assert", "todo", "panic", "external",
-    "x", "Xy", "_d", "1", "1.5", "\"s\"", "+", "-", "*", "/", "<", ">", "<=", ">=", "==", "!=", "&&", "||", "|>", "<>", ".", "..",
+    "x", "Xy", "_d", "1", "1.5", "\"s\"", "\"\\\\\"", "\"a\\\\\"", "+", "-", "*", "/", "<", ">", "<=", ">=", "==", "!=", "&&", "||", "|>", "<>", ".", "..",
     "->", "<-", "|", ":", ",", "=", "!", "%", "@", ")", "]", ">>", "$", "~", "ß", "\r",
 ];
 
